@@ -16,7 +16,7 @@ func init() {
 	register(&Prop{
 		ID:    "C11",
 		Title: "Concurrent use of the public API is free of data races",
-		Explanation: "Decides structural necessary conditions of race freedom: R11.1 (guarded fields, plus the annotated entry config.rng: every use of the collection's random source happens under one lock held exclusively); R11.2 published messages are immutable (E2, shared with C07) and no plain append extends a published slice; R11.3 in pkg/wrap the close error is written before serverSend is closed and every read is protected by a lock every write holds, or happens on the server side, or is dominated by a receive that observed serverSend closed. R11.1 detail: every access (outside constructors) to a field that is written under its struct's sibling mutex somewhere, or that is in the hand-confirmed guarded table, holds that mutex (any mode for reads, exclusive for writes), with lock sets propagated to unexported helpers and synchronous callbacks. Does NOT decide race freedom in general: no points-to analysis, no happens-before graph, callbacks supplied by callers are not analysed.",
+		Explanation: "Decides structural necessary conditions of race freedom: R11.1 (guarded fields, plus the annotated entry config.rng: every use of the collection's random source happens under one lock held exclusively); R11.2 published messages are immutable (E2, shared with C07) and no plain append extends a published slice; R11.3 in pkg/wrap the close error is written before serverSend is closed and every read is protected by a lock every write holds, or happens on the server side, or is dominated by a receive that observed serverSend closed. R11.1 detail: every access (outside constructors) to a field that is written under its struct's sibling mutex somewhere, or that is in the hand-confirmed guarded table, holds that mutex (any mode for reads, exclusive for writes), with lock sets propagated to unexported helpers and synchronous callbacks. R11.4 stored items are never written after construction (lock-free reads of looked-up items). R11.5 the wrapped stream's trailer is accessed only under one common mutex and its header is written only under headerM while headerC is still open. Does NOT decide race freedom in general: no points-to analysis, no happens-before graph, callbacks supplied by callers are not analysed.",
 		Assumptions: []string{"locks are identified by access path (no aliasing of mutexes)", "sort.Slice/sort.Search and friends invoke their callback synchronously"},
 		Run:         runC11,
 		Controls: []Control{
